@@ -73,6 +73,10 @@ CLAIMED["C19"] = dict(
    text="(partial) Numbers travel through the real string code as opaque atom tokens. Instance.to_compact_str/from_compact_str: symbolic instance (real constructor, <= 3 item types, multiplicity 1 and > 1, sizes up to 10^12) -> equal matrix, dtype, bin, counts and total area (both sides run the real constructor), a ValueError on reading back is a violation. PackingSpace.to_str/from_str: every feasible packing of <= 2 rows round-trips (from_str re-validates with the real validate). GamePlan.__str__ + GamePlanSpace.from_str: plans of n in {2,4} with symbolic magnitudes under five fixed sign patterns. Orderings and InstanceSpace text forms: concrete round trips through the real API only.",
    note="Outside: CSV writers/readers of packing_result / packing_statistics (moptipy EndResult CSV, pycommons CSV scopes, float formatting) - no bounded integer core to encode; digit-level formatting (str(int)/int(str) assumed inverse).",
    design="4/C19")
+CLAIMED["C10"] = dict(
+   text="(PARTIAL: the solver-decidable fragments) (a) j_from_ode: the real kernel on a symbolic simulation matrix (2-4 rows, 1-3 state dims, 1-2 control dims, every use_state_dims; reals) equals the documented time-weighted sum of squared states and gamma-weighted squared controls divided by T, writes every destination cell exactly once and stays in range; (b) IEEE lemma in z3 QF_FP: (v*v)*(w*gamma) is not NaN and >= 0 for the magnitudes the kernel admits; (d) the real run_ode with scipy's RK45/DenseOutput, controller and equations replaced by nondeterministic stubs: it returns within 5 cycles, and the result is either the failure row or `steps` rows with the start state first, strictly increasing linspace times up to the limit, every entry in (-1e10,1e10) and every control entry = controller(state, time). Stub-level counterexamples are replayed on a battery of concrete systems through the real RK45.",
+   note="Outside (the bulk of the property's numerical content): termination/accuracy of scipy's RK45, NaN/inf values, agreement with analytic solutions (one concrete case), diff_from_ode numerics. Assumes RK45 never reports 'failed' while the state function saw only in-range values (with it run_ode would ENLARGE max_time to nextafter(inf); could not be reproduced with a concrete system - recorded in DESIGN.md as an observation).",
+   design="4/C10")
 NA = {
  "C12": "quantifies over complete optimisation runs (moptipy Execution/Process, RNG streams, log files, budgets): no bounded symbolic encoding within reach; its solver-decidable ingredients are claimed under C01, C02, C04-C06, C19",
 }
